@@ -67,7 +67,7 @@ PROPS = {
         technique="model-based PBT over assignment histories interleaved with host writes, against a typed map model; recording Storer; exhaustive operator x type table",
         level_text="Histories of up to 25 (thorough 60) steps - set with every assignment operator, declare, reads through a capturing host function, host writes of "
                    "any type under any name (type changes included) and host reads - are run one statement per Next call on a recording Storer and on the "
-                   "library's InMemoryStorer. After every step: Next erred exactly when the model says so; GetValues equals the model; GetValue, Contains and "
+                   "library's InMemoryStorer; the whole history runs twice (the node jumps back to itself) and a third time after RestoreAt(Snapshot()). After every step: Next erred exactly when the model says so; GetValues equals the model; GetValue, Contains and "
                    "GetValues agree on presence and on a single type per name; a failing statement wrote nothing and a successful one wrote only its target; "
                    "values read by the script are the last ones assigned or written by the host. Exhaustive: operator x current type x assigned type x storer. Search, not proof.",
         level_note="Trusts the map model (assign in harness/model_script_test.go). After a failing statement the harness expects the marker line of the next statement; "
@@ -88,7 +88,7 @@ PROPS = {
                    "variables: integral up to 2^53 and beyond, fractional, tiny, huge; booleans; strings containing special characters), 0-3 tags over many characters, "
                    "trailing comments that look like commands/tags/expressions, and edge blanks. Expected: text = trimmed concatenation of the chunks' meanings and the "
                    "values' display forms; tags in order and absent from the text; comment absent; option count and order preserved; Disabled exactly when a "
-                   "condition is present and false. Exhaustive: every character x {first, middle, last} x {raw, escaped} in a line and in an option. Search, not proof.",
+                   "condition is present and false; everything is rendered twice by the same runner (the node jumps back to itself), in a fifth of the cases after three deliberately failing elements. Exhaustive: every character x {first, middle, last} x {raw, escaped} in a line and in an option. Search, not proof.",
         level_note="Number display is a predicate: integral |x| <= 2^53 exactly the integer digits (0 for both zeros); beyond 2^53 any text that reads back exactly; "
                    "otherwise a text that reads back exactly with no more significant digits than the shortest round-trip form. Not generated (statement silent or excluded "
                    "by the grammar): raw '[', an escaped bracket as first character, a literal backslash directly before a bracket (the markup phase would read it as an "
@@ -148,7 +148,7 @@ PROPS = {
     "C07": dict(
         technique="differential PBT over (run, save point, receiver state, continuation): snapshot immutability, resume vs a replayed fresh runner, independence of restored runners, re-snapshot equality, failed restore vs untouched twin",
         level_text="Generated deterministic scripts (every node logs its entry through a host probe and starts with a line; jumps, cycles, options, sets, rendered "
-                   "visit counts, a harness-held <<hold>> command) are run with choices c; a snapshot S is taken after k Next calls. Checked: (a) S, deep-copied at "
+                   "visit counts, failing jumps, variables only some paths define, a harness-held <<hold>> command; recording storer or the library's InMemoryStorer; variables supplied by the host or set by the start node itself) are run with choices c; a snapshot S is taken after k Next calls. Checked: (a) S, deep-copied at "
                    "that moment, is unchanged after the original went on and after restored runners were driven; (b) a receiver in a generated state (fresh, mid-run, "
                    "waiting for a choice, waiting for a never-completing command, ended) restored from S and driven with c' yields the same elements as a fresh runner "
                    "replayed to that node entry and then driven with c'; (c) a second runner restored from S is unaffected by driving the first; (d) Snapshot() "
@@ -183,7 +183,7 @@ PROPS = {
         technique="differential PBT over pairs of executions (same process with interfering runners and global math/rand use in between; fresh child processes) + range predicate over captured draws",
         level_text="Generated scripts whose lines, set statements and conditions use dice, random and random_range (so that flow depends on the draws) are run twice with the "
                    "same seed and choices; between the runs other runners with the same and another seed are created and driven (one left half-way and continued "
-                   "afterwards) and the global math/rand source is consumed and re-seeded: traces, error texts, host-function/command logs and final variables must "
+                   "afterwards) and the global math/rand source is consumed and re-seeded; a third run is interleaved step by step with a runner of another seed created while it is under way: traces, error texts, host-function/command logs and final variables must "
                    "be identical. The test binary re-executes itself to repeat the run in fresh processes (once cold, once after unrelated runners ran first). A "
                    "third sub-check captures every draw exactly for arbitrary seeds and bounds (n in [1,2^53), a <= b within +-2^52, n=1 and a=b included): "
                    "integer in range, random() in [0,1), same sequence on a second runner. Search, not proof.",
@@ -236,7 +236,7 @@ PROPS = {
     ),
     "C12": dict(
         technique="model-based PBT: fault-free scripts driven to their end (stop at any depth / node end / end after an option group), then further Next calls with arbitrary arguments checked for the end marker and for absence of side effects on a recording storer and logging handlers",
-        level_text="Generated scripts biased towards <<stop>> inside nested bodies with statements remaining and towards ends right after option groups are driven "
+        level_text="Generated scripts biased towards <<stop>> inside nested bodies with statements remaining and towards ends right after option groups, with <<wait n>> commands that complete by themselves and a never-completing host command registered under 'stop', are driven "
                    "to the first end; 1-6 further Next calls with arbitrary arguments (0, in range, out of range, negative, huge) must each return (nil, nil) "
                    "without panic, storer write, host-function call or command dispatch. Search, not proof.",
         level_note="The runner is driven until it reports the end itself (runs without an end inside the element limit are discarded, counted); the reference interpreter only classifies how the end was reached.",
@@ -267,7 +267,7 @@ PROPS = {
         technique="PBT over call histories with a differential oracle (reused parser vs fresh parser; same line after different dialogue prefixes)",
         level_text="For generated histories of well-formed, truncated and garbage lines parsed on one LineParser, the result for a probe line "
                    "(text, attributes, positions, source positions, error-ness) must deep-equal the result on a fresh parser, also when parsed twice; "
-                   "at runner level the Line of the probe after a prefix of other lines (including lines whose markup fails) must equal the Line of the probe alone. Search, not proof.",
+                   "at runner level the Line of the probe after a prefix of other lines (including lines whose markup fails) must equal the Line of the probe alone. Exhaustive pairs over 13 atoms; histories of 20-90 lines in which the probe has been parsed before. Search, not proof.",
         level_note="Model-free differential check: it trusts nothing but reflect.DeepEqual. Lines that panic are C15's business and are discarded here.",
         rule="history of 0-6 lines (well-formed from the C13 grammar, truncated, or fragment soup) x probe line; non-trivial = the history contains a "
              "marker-bearing line and the probe yields at least one attribute; distinct = distinct (history, probe) pairs.",
@@ -304,7 +304,7 @@ PROPS = {
                    "arguments of mostly fitting, sometimes wrong, count and type. Registration must never panic; non-functions, nil, unbridgeable parameter or result "
                    "kinds and too many results must be refused; predeclared signatures with legal result shapes must be accepted; an accepted function is either "
                    "refused at call time (count/type mismatch, without running) or runs exactly once with arguments equal to Go's conversion to the declared type, and "
-                   "its value or error reaches the script; the bridge never panics. Exhaustive: all parameter lists of length <= 2 over the pool. Search, not proof.",
+                   "its value or error reaches the script; after a refused registration the name is simply unknown (an error, never a panic); the bridge never panics. Exhaustive: all parameter lists of length <= 2 over the pool. Search, not proof.",
         level_note="Where the statement does not decide (uint kinds, interface{} parameters, a command returning a plain value) registration may go either way, but 'accepted "
                    "implies callable' still applies. A fractional number sent to an integer parameter may arrive as either neighbouring integer. Typed nil function "
                    "values and error-implementing pointer result types are not generated (outside the stated type pool).",
@@ -338,8 +338,9 @@ PROPS = {
     ),
     "C18": dict(
         technique="differential PBT under the race detector in fresh child processes: every program's trace alone vs its trace when all runners are created (parsed) and driven concurrently behind a start barrier, cold parser caches first",
-        level_text="Sets of 2-8 generated programs (flow, random built-ins with per-runner seeds, markup lines, numeric built-ins, converting registrations, immediate commands; "
-                   "some programs repeated) are handed to a child process started from the -race test binary: 1-3 rounds in which one goroutine per program creates its "
+        level_text="Sets of 2-8 generated programs (flow, random built-ins with explicit and empty seeds, markup lines incl. open replacement markers, numeric built-ins, converting registrations, "
+                   "immediate commands, <<wait>> and an asynchronous host command reading its arguments in its own goroutine, storms of 40-160 such commands, a library file shared "
+                   "byte for byte as first reader; some programs repeated) are handed to a child process started from the -race test binary: 1-3 rounds in which one goroutine per program creates its "
                    "runner and drives it, all released together while the ANTLR DFA caches are still cold in the first round; afterwards each program is run alone in the "
                    "same process. Traces, error texts, logs and final variables must be identical, and any race detector report or 'fatal error' (concurrent map access) "
                    "in the child is a violation. Search, not proof.",
